@@ -1,7 +1,7 @@
 (* Properties_C20.v — C20: every failure surfaces as a catchable exception: no terminate, no leak.
    Statements only.  The propagation logic is proved for every program of the Exn language (InvSpec.v); the two
-   library scopes whose destructors call throwing code are modelled (InvModel.v): the CSV one violates the property (F18),
-   the MsgPack one did (F17) and satisfies it at full strength since its repair;
+   library scopes whose destructors call throwing code are modelled (InvModel.v): both violated the property (F17, F18)
+   and satisfy it at full strength since their repair in /repo (the unguarded variants are kept as refuted witnesses);
    the regenerated destructor inventory (coq/InvGenerated.v) pins the set of destructors that can throw.
    Allocation failure, stream faults, leaks: observed by harness/drv_fault.cpp, not proved. *)
 From Coq Require Import NArith String List Bool.
@@ -38,23 +38,26 @@ Theorem T_C20_throwing_dtor_normal_exit : forall (St E : Type) (body : prog St E
 Proof. exact throwing_dtor_terminates_normal. Qed.
 Print Assumptions T_C20_throwing_dtor_normal_exit.
 
-(* the property is FALSE of the library as it is.  F18: CSV row narrower than the first: the width check lives in
-   NextLine, which only ~CCsvWriteObjectScope calls: the SerializationException leaves a destructor on the normal path *)
-Theorem T_C20_dtor_terminates_refuted : csv_run [2; 1] = Terminate.
-Proof. exact csv_short_row_terminates. Qed.
-Print Assumptions T_C20_dtor_terminates_refuted.
+(* CSV save (string writer), full strength since /repo commit 0a28cd4 repaired F18: for EVERY list of rows the process is
+   never terminated, and the row-width error surfaces as OutOfRange exactly when some row differs in width from the first *)
+Theorem T_C20_csv_never_terminates : forall widths, csv_run widths <> Terminate.
+Proof. exact csv_never_terminates. Qed.
+Print Assumptions T_C20_csv_never_terminates.
 
-(* CSV, both sides: the row-width error never reaches the caller as an exception, and the save terminates the
-   process exactly when some row differs in width from the first *)
-Theorem T_C20_csv_width_error_never_surfaces : forall widths e s, csv_run widths <> Err e s.
-Proof. exact csv_width_error_never_surfaces. Qed.
-Print Assumptions T_C20_csv_width_error_never_surfaces.
-
-Theorem T_C20_csv_outside : forall widths,
+Theorem T_C20_csv_width_error_surfaces : forall widths,
   (uniform widths = true -> exists s, csv_run widths = Ok s) /\
-  (uniform widths = false -> csv_run widths = Terminate).
-Proof. exact csv_terminates_iff_ragged. Qed.
-Print Assumptions T_C20_csv_outside.
+  (uniform widths = false -> exists s, csv_run widths = Err EOutOfRange s).
+Proof. exact csv_width_error_surfaces. Qed.
+Print Assumptions T_C20_csv_width_error_surfaces.
+
+Example T_C20_csv_ragged_example : uniform [2; 1] = false /\ uniform [3; 3; 3] = true /\ csv_answer [2; 1] = AExcRange.
+Proof. repeat split; vm_compute; reflexivity. Qed.
+Print Assumptions T_C20_csv_ragged_example.
+
+(* the deferral is what makes the difference: the same save with the destructor as it was before the repair *)
+Theorem T_C20_csv_unguarded_dtor_terminates : exec (csv_save_unguarded [2; 1]) csv_init = Terminate.
+Proof. exact csv_unguarded_short_row_terminates. Qed.
+Print Assumptions T_C20_csv_unguarded_dtor_terminates.
 
 (* MsgPack, the other side: a complete document never reaches the throwing path.  Every map of fewer than 16 members
    with fixstr / fixint keys and fixint values, followed by anything, loads and stores every member *)
@@ -72,7 +75,7 @@ Example T_C20_msgpack_complete_doc_example :
 Proof. exact mp_complete_doc_example. Qed.
 Print Assumptions T_C20_msgpack_complete_doc_example.
 
-(* MsgPack map load (memory reader), full strength since /repo commits 0863f96 + 3580349 repaired F17: for EVERY input
+(* MsgPack map load (memory reader), full strength since /repo commits 0863f96 + 3580349 + 8d03f7f repaired F17: for EVERY input
    the process is never terminated, and an exception thrown by any step reaches the caller as that exception *)
 Theorem T_C20_msgpack_never_terminates : forall inp, mp_run inp <> Terminate.
 Proof. exact mp_never_terminates. Qed.
@@ -110,7 +113,7 @@ Proof. exact throwing_dtors_expected. Qed.
 Print Assumptions T_C20_throwing_dtors.
 
 (* ... and the functions declared noexcept whose bodies or member initialisers call possibly-throwing code are exactly
-   the listed ones (two of them are defects: F38, F39; see InvSpec.v) *)
+   the listed ones (all judged benign, see InvSpec.v; the two defects this list exposed, I38 / I39, are repaired) *)
 Theorem T_C20_noexcept_callers : noexcept_callers noexcept_fns = expected_noexcept_callers.
 Proof. exact noexcept_callers_expected. Qed.
 Print Assumptions T_C20_noexcept_callers.
